@@ -78,6 +78,13 @@ func c16Positions() []position {
 		{"cte-body", "cond", "WITH c AS (SELECT b FROM u WHERE %s) SELECT a FROM c", false},
 		{"insert-select", "cond", "INSERT INTO t (a) SELECT b FROM u WHERE %s", false},
 		{"case-when", "cond", "SELECT CASE WHEN %s THEN 1 ELSE 0 END FROM t", false},
+		{"case-first-of-three-arms", "cond", "SELECT CASE WHEN %s THEN 1 WHEN b = 2 THEN 2 WHEN c = 3 THEN 3 ELSE 0 END FROM t", false},
+		{"case-middle-arm", "cond", "SELECT CASE WHEN b = 2 THEN 1 WHEN %s THEN 2 WHEN c = 3 THEN 3 END FROM t", false},
+		{"and-chain-head-of-150", "cond", "SELECT a FROM t WHERE %s" + strings.Repeat(" AND b = 2", 150), false},
+		{"or-chain-head-of-400", "cond", "SELECT a FROM t WHERE %s" + strings.Repeat(" OR c = 3", 400), false},
+		{"and-chain-tail-of-150", "cond", "SELECT a FROM t WHERE b = 2" + strings.Repeat(" AND b = 2", 150) + " AND %s", false},
+		{"insert-ragged-row", "cond", "INSERT INTO t (a) VALUES (1), (2, (SELECT b FROM u WHERE %s))", false},
+		{"cte-delete-body", "cond", "WITH d AS (DELETE FROM u WHERE %s RETURNING b) SELECT b FROM d", false},
 		{"setop-right", "cond", "SELECT a FROM t UNION SELECT b FROM u WHERE %s", false},
 		{"setop-left", "cond", "SELECT a FROM t WHERE %s UNION SELECT b FROM u", false},
 		{"update-subquery", "cond", "UPDATE t SET a = 1 WHERE b IN (SELECT c FROM u WHERE %s)", false},
@@ -118,6 +125,9 @@ func c16Positions() []position {
 		{"func-arg", "call", "SELECT COALESCE(%s, 1) FROM t", false},
 		{"arith", "call", "SELECT a FROM t WHERE a = 1 + %s", false},
 		{"case-result", "call", "SELECT CASE WHEN a = 1 THEN %s ELSE 0 END FROM t", false},
+		{"case-first-result-of-three", "call", "SELECT CASE WHEN a = 1 THEN %s WHEN a = 2 THEN 2 WHEN a = 3 THEN 3 END FROM t", false},
+		{"concat-chain-head-of-200", "call", "SELECT %s" + strings.Repeat(" || 'x'", 200) + " FROM t", false},
+		{"plus-chain-head-of-600", "call", "SELECT a FROM t WHERE a = %s" + strings.Repeat(" + 1", 600), false},
 		{"in-list", "call", "SELECT a FROM t WHERE a IN (1, %s)", false},
 		{"between", "call", "SELECT a FROM t WHERE a BETWEEN 1 AND %s", false},
 		{"having-call", "call", "SELECT a FROM t GROUP BY a HAVING COUNT(*) > %s", false},
